@@ -145,23 +145,25 @@ func serializeVariableRecords(epoch time.Time, intervalsPerDay uint32, wtSet *wa
 	// 1 record size = 8byte(Epoch) + columns + intervalTicks(4byte) = 8byte(Epoch) + VariableLengthRecord
 	cursor := 0
 	for i := 0; i < numRows; i++ {
-		// serialize Epoch (variable length records in a WTSet have the same Epoch value)
-		buf, err = io.Serialize(buf[:cursor], epoch.Unix())
+		// the last 4 bytes of each record are its intervalTicks: they give the
+		// second within the interval as well as the nanosecond
+		record := payload[i*varRecLen : (i+1)*varRecLen]
+		intervalTicks := io.ToUInt32(record[varRecLen-IntervalTicksBytes:])
+		second, nanosecond := executor.GetTimeFromTicks(uint64(epoch.Unix()), intervalsPerDay, intervalTicks)
+
+		// serialize Epoch
+		buf, err = io.Serialize(buf[:cursor], int64(second))
 		if err != nil {
 			return nil, errors.Wrap(err, "failed to serialize Epoch to buffer:"+epoch.String())
 		}
 		cursor += EpochBytes
 
 		// append the payload (= columns + intervalTicks) for a record
-		buf, err = io.Serialize(buf[:cursor], payload[i*varRecLen:(i+1)*varRecLen])
+		buf, err = io.Serialize(buf[:cursor], record)
 		if err != nil {
 			return nil, errors.Wrap(err, "failed to serialize Payload to buffer:"+epoch.String())
 		}
 
-		// last 4 byte of each record is an intervalTick
-		intervalTicks := io.ToUInt32(buf[len(buf)-IntervalTicksBytes:])
-		// expand intervalTicks(32bit) to Epoch and Nanosecond
-		_, nanosecond := executor.GetTimeFromTicks(uint64(epoch.Unix()), intervalsPerDay, intervalTicks)
 		// replace intervalTick with Nanosecond
 		buf, err = io.Serialize(buf[:len(buf)-IntervalTicksBytes], int32(nanosecond))
 		if err != nil {
